@@ -59,7 +59,13 @@ func pointRectDistGeodeticRad(φq, λq, φl, λl, φh, λh float64) float64 {
 		cosφa := math.Cos(φa)
 		cosφb := math.Cos(φb)
 
-		return 2 * math.Asin(math.Sqrt(sinΔφ*sinΔφ+sinΔλ*sinΔλ*cosφa*cosφb))
+		a := sinΔφ*sinΔφ + sinΔλ*sinΔλ*cosφa*cosφb
+		if a > 1 {
+			// rounding can take the haversine term past 1 for (nearly)
+			// antipodal points, and Asin(>1) is NaN
+			a = 1
+		}
+		return 2 * math.Asin(math.Sqrt(a))
 	}
 
 	// Simple case, point or invalid rect
